@@ -116,12 +116,12 @@ class Gen:
             if k == "bytes":
                 return b, ("bytes", b)
             if self.sym:
-                # str contents: printable ASCII (explicit assumption), still arbitrary within that range
+                # str contents: 7-bit ASCII including NUL and control characters (explicit assumption: UTF-8 coding is the identity there)
                 import z3
                 seg = b.segs[0]
                 for i in range(n):
                     c = z3.Select(seg.arr, i)
-                    ex.add(z3.And(c >= 32, c <= 126))
+                    ex.add(z3.And(c >= 0, c <= 127))
                 return SymStr(SymBytes(b.segs)), ("bytes", b)
             s = bytes(b).decode("ascii")
             return s, ("bytes", s.encode())
@@ -444,7 +444,7 @@ CANARIES = [
 ]
 
 ASSUMPTIONS = [
-    "every integer field symbolic over its full width, enum fields by selector over all members, bytes/str contents opaque (str ASCII), lengths concrete from the boundary set for one distinguished field at a time (1..2 otherwise)",
+    "every integer field symbolic over its full width, enum fields by selector over all members, bytes/str contents opaque (str: 7-bit ASCII incl. NUL and control characters), lengths concrete from the boundary set for one distinguished field at a time (1..2 otherwise)",
     "float fields have no serializer in the library and stay unset; zero-length bytes/str/sequence values are outside (the property's size list starts at 1)",
     "struct.pack native 'H'/'I'/'Q' modelled as this platform's little-endian fixed sizes",
     "equality is field-wise on init fields; message types that contain a packed id list cannot be encoded by the library and are checked on the receive side only",
